@@ -23,7 +23,7 @@ META = {
     ],
     "bounds": {"quick": {"history_length": "<= 5 operations over 7 kinds", "values": "each call argument an unbounded Int"},
                "thorough": {"history_length": "<= 6", "values": "as quick"}},
-    "out_of_scope": ["max/min/last of an empty window: no value is defined; only 'no value published' is asserted "
+    "out_of_scope": ["max/min/last/sum of an empty window: no value is defined; only 'no value published' is asserted "
                      "(errors are routed to an on_error handler)", "asynchronous operators (sample, throttle, ...)",
                      "interpreter-exit completion of global probes (atexit)"],
     "assumptions": ["transform executed natively", "each path runs in a copy of the context"],
@@ -41,10 +41,10 @@ KINDS = ["max", "count", "last", "sum", "min"]
 def reduce_ref(kind, vals):
     if kind == "count":
         return [len(vals)]
-    if kind == "sum":
-        return [sum(vals)] if vals else [0]
     if not vals:
-        return []
+        return []  # max/min/last/sum of an empty window: no value is defined (giving reports an error to on_error)
+    if kind == "sum":
+        return [sum(vals)]
     if kind == "last":
         return [vals[-1]]
     m = vals[0]
